@@ -295,7 +295,7 @@ def check_case(case: Dict[str, Any], col: Collector, workroot: str = ".", also_s
 
 
 def plan(tier: str, seed: int, scale: float = 1.0) -> List[Dict[str, Any]]:
-    nshards, n = (16, 200) if tier == "quick" else (64, 600)
+    nshards, n = (16, 300) if tier == "quick" else (64, 600)
     return [{"seed": seed * 4513 + i, "n": max(10, int(n * scale)), "subprocess_every": 40 if tier == "quick" else 30, "timeout": 1500} for i in range(nshards)]
 
 
